@@ -175,8 +175,10 @@ def self_heals(repo: Repo, cls: ClassInfo) -> Tuple[bool, str]:
         return False, "no execute"
     selfn = ex.params()[0]
     flag = None
-    c = cfg_of(ex.node)
-    reruns = [x for x in walk_no_nested(ex.node) if isinstance(x, ast.Call) and isinstance(x.func, ast.Attribute) and x.func.attr == "execute" and "UpdateInfoTransformer" in src(x.func.value)]
+    from ..shape import expanded
+    exn = expanded(repo, ex)          # the guarded re-run may have been moved into a helper of the pass
+    c = cfg_of(exn)
+    reruns = [x for x in walk_no_nested(exn) if isinstance(x, ast.Call) and isinstance(x.func, ast.Attribute) and x.func.attr == "execute" and "UpdateInfoTransformer" in src(x.func.value)]
     if not reruns:
         return False, "execute never re-runs UpdateInfoTransformer"
     from ..shape import conjuncts
